@@ -1192,8 +1192,14 @@ func (c *Context) quantize(d, v *Decimal, exp int32) Condition {
 	} else if diff > 0 {
 		p := int32(d.NumDigits()) - diff
 		if p < 0 {
+			// |v| is less than a tenth of one unit of 10^exp: every digit is
+			// discarded and the result is 0, or 1 in the rounding modes that
+			// round such a value away from zero.
 			if !d.IsZero() {
 				d.Coeff.SetInt64(0)
+				if c.Rounding.ShouldAddOne(&d.Coeff, d.Negative, -1) {
+					d.Coeff.SetInt64(1)
+				}
 				res = Inexact | Rounded
 			}
 		} else {
